@@ -53,7 +53,7 @@ RULE = ("each run draws 1-3 plots, the options of the chain (MakeFilename varian
         "the MakeFilename rules. One scenario in four is the grouped variant: GroupBy, group_plots, "
         "MapGroup(ToCSV, MakeFilename, Write) write one csv per member and one tex / pdf / png per "
         "group of two plots; the members' output.changed must be combined into the group's. non-trivial = at least two runs with a change or a deletion; "
-        "distinct = distinct abstracted event-kind sequences"
+        "distinct = distinct abstracted event-kind sequences."
         " Since the seeded rounds also: more MakeFilename variants (names from the context, empty"
         " dirname / fileext, names built from the existing name, alternative names, optional"
         " dirname, dirname set by its own element or derived from the name just set, names with a"
